@@ -2,6 +2,7 @@
 //! TLA+ trace specifications in /verif/spec judge.  Rust only drives and projects; no verdicts.
 mod alloc;
 mod bq;
+mod xmlh;
 mod tendrilops;
 mod meta;
 mod rcdomops;
@@ -28,6 +29,7 @@ fn main() {
     match argv[1].as_str() {
         "bq" => bq::main(&args),
         "tok" => tok::main(&args),
+        "xml" => xmlh::main(&args),
         "tendril" => tendrilops::main(&args),
         "tendril-mt" => tendrilops::main_mt(&args),
         "meta" => meta::main(&args),
